@@ -26,9 +26,14 @@ MAXLOG = {"quick": 10, "thorough": 13}
 SCALE = 0.001
 
 
-def header(parity, cx, cy, h):
+def header(parity, cx, cy, h, cd=False):
     """Header of one input: top-down (parity -1) or bottom-up (+1) storage of the same sky placement.
-    (cx, cy) = 1-based CRPIX of the TOP-DOWN description."""
+    (cx, cy) = 1-based CRPIX of the TOP-DOWN description.  cd=True: CD-matrix form (which wcslib re-expresses as
+    CDELT = 1, PC = CD for every input, flipped or not — the form in which inputs of DIFFERENT storage parity pass the
+    real code's uniform-grid test)."""
+    if cd:
+        return Hdr(CTYPE1="RA---TAN", CTYPE2="DEC--TAN", CRVAL1=10.0, CRVAL2=20.0, CD1_1=-SCALE, CD1_2=0.0, CD2_1=0.0,
+                   CD2_2=(-SCALE if parity == -1 else SCALE), CRPIX1=cx, CRPIX2=(cy if parity == -1 else h + 1 - cy))
     if parity == -1:
         return Hdr(CTYPE1="RA---TAN", CTYPE2="DEC--TAN", CRVAL1=10.0, CRVAL2=20.0, CDELT1=-SCALE, CDELT2=-SCALE,
                    PC1_1=1.0, PC2_2=1.0, CRPIX1=cx, CRPIX2=cy)
@@ -39,7 +44,9 @@ def header(parity, cx, cy, h):
 class Mosaic(e2.Case):
     def __init__(self, tier, k, fmt, parity, reverse, via_worker):
         self.tier, self.k, self.fmt, self.parity, self.reverse, self.via_worker = tier, k, fmt, parity, reverse, via_worker
-        self.name = "mosaic-%dx-%s-%s%s%s" % (k, fmt, "bottomup-inputs" if parity == 1 else "topdown-inputs",
+        self.mixed = isinstance(parity, tuple)
+        self.parities = tuple(parity) if self.mixed else (parity,) * k
+        self.name = "mosaic-%dx-%s-%s%s%s" % (k, fmt, ("mixed-inputs[%s]" % ",".join("bu" if p == 1 else "td" for p in parity)) if self.mixed else ("bottomup-inputs" if parity == 1 else "topdown-inputs"),
                                                "-reversed" if reverse else "", "-worker" if via_worker else "")
         self.max_paths = 6000
         self.budget_s = 260
@@ -63,12 +70,12 @@ class Mosaic(e2.Case):
         order = list(range(K))
         if self.reverse:
             order = order[::-1]
-        parity = self.parity
+        parities, mixed = self.parities, self.mixed
         fs = symfs.SymFS()
 
         def mkwcs(k):
             # CRPIX (1-based, top-down description) such that top-down pixel (0, 0) sits at grid position (ox, oy)
-            return FakeWCS(header(parity, 1 - ox[k], 1 - oy[k], hs[k]))
+            return FakeWCS(header(parities[k], 1 - ox[k], 1 - oy[k], hs[k], cd=mixed))
 
         class Coll:
             def descriptions(self_c):
@@ -138,7 +145,7 @@ class Mosaic(e2.Case):
                    lock_log=list(fs.lock_log), locks_left=len(fs.locks), path=path,
                    lockfiles_left=[p for p in fs.files if p.endswith(".lock")])
         if not w.symbolic:
-            out["ref"] = _ref_tile(out, self.fmt, self.parity)
+            out["ref"] = _ref_tile(out, self.fmt, self.parities)
         return out
 
     def same_path(self, so, ro):
@@ -187,7 +194,7 @@ class Mosaic(e2.Case):
             px = gx - (I(ox[k]) - minx)
             py = gy - (I(oy[k]) - miny)
             inside = z3.And(px >= 0, px < I(ws[k]), py >= 0, py < I(hs[k]))
-            srow = (I(hs[k]) - 1 - py) if self.parity == 1 else py     # stored row of the input array
+            srow = (I(hs[k]) - 1 - py) if self.parities[k] == 1 else py     # stored row of the input array
             e = arrs[k].get((srow, px))
             d = z3.And(inside, z3.Not(e.nan))
             covered_defined.append((d, e))
@@ -217,7 +224,7 @@ def _locks_ok(o):
     return True
 
 
-def _ref_tile(o, fmt, parity):
+def _ref_tile(o, fmt, parities):
     """numpy reference from the property text: paste the (top-down) inputs into one mosaic, tile it as a study."""
     K = len(o["ws"])
     minx, miny = min(o["ox"]), min(o["oy"])
@@ -225,7 +232,7 @@ def _ref_tile(o, fmt, parity):
     Hm = max(o["oy"][k] + o["hs"][k] for k in range(K)) - miny
     M = _np.full((Hm, Wm), _np.nan, dtype=_np.float32)
     for k in range(K):
-        td = o["arrs"][k][::-1] if parity == 1 else o["arrs"][k]
+        td = o["arrs"][k][::-1] if parities[k] == 1 else o["arrs"][k]
         y0, x0 = o["oy"][k] - miny, o["ox"][k] - minx
         sub = M[y0:y0 + td.shape[0], x0:x0 + td.shape[1]]
         _np.putmask(sub, ~_np.isnan(td), td)
@@ -249,7 +256,9 @@ def _ref_tile(o, fmt, parity):
 def cases(tier):
     out = [Mosaic(tier, 2, "fits", 1, False, False), Mosaic(tier, 2, "fits", 1, True, False), Mosaic(tier, 2, "fits", -1, False, False),
            Mosaic(tier, 2, "npy", 1, False, False), Mosaic(tier, 2, "npy", -1, True, False), Mosaic(tier, 2, "fits", 1, False, True),
-           Mosaic(tier, 1, "fits", 1, False, False)]
+           Mosaic(tier, 1, "fits", 1, False, False),
+           # inputs of different storage parity on one grid (CD-matrix headers): each input must be brought to top-down on its own
+           Mosaic(tier, 2, "fits", (1, -1), False, False), Mosaic(tier, 2, "npy", (-1, 1), False, False)]
     if tier == "thorough":
         out += [Mosaic(tier, 3, "fits", 1, False, False), Mosaic(tier, 3, "fits", -1, True, False), Mosaic(tier, 3, "npy", 1, False, True)]
     return out
@@ -265,11 +274,11 @@ def check(run):
     # the outer loop over inputs is executed in full; only the inner tile loop is summarised
     run.bound(inputs="%s inputs" % ("2 (and 1)" if run.tier == "quick" else "up to 3"), sizes="symbolic widths/heights and integer grid offsets, mosaic up to 2^%d pixels per side" % MAXLOG[run.tier],
               tile="the inspected tile is a symbolic position; it is the witness index in every input's tile loop", pixel="symbolic (r, c)",
-              parities="all inputs bottom-up or all top-down; fits (bottom-up) and npy (top-down) tiles", orders="given and reversed input order", worker="serial body and the worker function's body")
+              parities="all inputs bottom-up, all top-down, or mixed (one of each, CD-matrix headers); fits (bottom-up) and npy (top-down) tiles", orders="given and reversed input order", worker="serial body and the worker function's body")
     run.assume("integer pixel offsets between the inputs (fractional CRPIX differences go through floor/ceil and are outside the claim)",
                "overlapping inputs agree where both are defined (hypothesis of order independence)",
                "astropy WCS <-> header modelled by the stand-in validated in C16 (CD headers come back as CDELT=1, PC=CD)",
-               "inputs of mixed parity are rejected by the real code with a 'not on uniform WCS grid' exception (visible failure) and are not claimed",
+               "inputs of mixed storage parity are claimed for CD-matrix headers; with CDELT/PC headers a flipped input's header comes back in another form and the real code rejects the set with a 'not on uniform WCS grid' exception (visible failure)",
                "wwt_data_formats.ImageSet.set_position_from_wcs (external package) is not executed: the header/width/height handed to it are checked",
                "codecs = identity; SoftFileLock replaced by an in-memory stand-in; cross-process contention is C10's subject")
     run.outside("fractional offsets", "set_position_from_wcs internals", "parallel interleavings (C03/C10)")
